@@ -209,3 +209,29 @@ Theorem C04_conn_emit_inverse : forall d iname p nm (cs : list wire) (r : nat) (
     align Z.of_nat pins t = Some (combine (rev cs) (rev (seq 0 (length cs)))).
 Proof. exact conn_emit_inverse. Qed.
 Print Assumptions C04_conn_emit_inverse.
+
+(* the skeleton of what emit writes, for EVERY netlist value: the document is the list of the written modules in the
+   order of the _write_module calls, each from the definition of its name; a module carries the definition's name,
+   `celldefine flag, parameters, attributes, one header entry per port in port order; a primitive has port
+   declarations only *)
+Theorem C04_emit_document : forall o n d,
+  emit o n = WOk d ->
+  Forall2 (fun x m => exists dd, find_ndef n x = Some dd /\ emit_module o n dd = WOk m /\ vm_name m = x)
+          (written_order o n) d.
+Proof. exact emit_document. Qed.
+Print Assumptions C04_emit_document.
+
+Theorem C04_emit_module_skeleton : forall o n dd m,
+  emit_module o n dd = WOk m ->
+  vm_name m = nd_name dd /\ vm_cell m = is_prim dd /\ vm_params m = nd_params dd /\ vm_attrs m = nd_attrs dd /\
+  Forall2 (fun p h => emit_header_port dd p = WOk h) (nd_ports dd) (vm_header m) /\
+  (is_prim dd = true -> emit_body_ports dd (nd_ports dd) [] = WOk (vm_body m)).
+Proof. exact emit_module_skeleton. Qed.
+Print Assumptions C04_emit_module_skeleton.
+
+(* the header of a module of the class `writable` is the list of its port names, in port order *)
+Theorem C04_writable_header : forall o n dd m,
+  forallb (port_plain dd) (nd_ports dd) = true -> emit_module o n dd = WOk m ->
+  Forall2 (fun p h => exists nm, np_label p = LName nm /\ h = HPort None None nm) (nd_ports dd) (vm_header m).
+Proof. exact writable_header. Qed.
+Print Assumptions C04_writable_header.
